@@ -4,11 +4,14 @@ import Goyang.Lemmas.Deviate
 import Goyang.Lemmas.DevExtMain
 import Goyang.Lemmas.DevExtAugMain
 import Goyang.Lemmas.DevExtUses
+import Goyang.Lemmas.DevExtLink
+import Goyang.Lemmas.DevExtFuel
 /-
 C08 — deviations change exactly what they name, in written order, or are reported.
 Property theorems only; helper lemmas live in Goyang/Lemmas/Deviate.lean and, for the frame across
 module sets, in Goyang/Lemmas/DevExt{Base,Stage,Conv,Main}.lean (base without `uses` / augments),
-DevExt{Aug,AugLoop,AugMain}.lean (augments in the base) and DevExtUses.lean (`uses` in the base).
+DevExt{Aug,AugLoop,AugMain}.lean (augments in the base) and DevExt{Uses,Link,Fg,Fuel}.lean (`uses` in the base:
+two registries at one fuel, the linking stage, the grouping search at two fuels, `toEntry` at two fuels).
 
 Reading aid.
 * `Spec.Deviate` is the transcription of RFC 7950 §7.20.3.2: `violations p s` lists every condition
@@ -77,12 +80,25 @@ Status of the statements of DESIGN 7.8.
     the two runs (`ConvAgree`);
   - `frame_across_modules_uses`: `ConvAgree` reduced, for a base with `uses`, to (i) `DeepImports` and
     `LinkAgree` (finite conditions on the two registries) and (ii) `FuelStable`: the conversion in the
-    base registry ALONE is the same at the larger fuel of the run with the new modules.  Proved: the
-    two registries convert alike at one and the same fuel, grouping search included
-    (`Lemmas/DevExtUses.lean`: `fg_all`, `toEntry_sameFuel`).  NOT proved: `FuelStable` for a base with
-    `uses` (needs: the grouping search, which gets `2 * fuel + 16`, is not cut short at the fuels that
-    occur — a bound sharper than `groupingNeed`), and `LinkAgree` from `DevExtCore` (true — the new
-    modules are walked last by `linkAll` and reach only linked modules of the base — but not proved).
+    base registry ALONE is the same at the larger fuel of the run with the new modules, at EVERY call
+    (any list of statements of the module as scope).  Kept as it was; `FuelStable` / `ConvAgree` ask
+    more than the frame needs and more than is true for a base in which a `uses` resolves (a scope list
+    longer than the fuel of the grouping search lets the search succeed at the larger fuel only), so
+    this theorem says little there — superseded by `frame_across_modules_with_uses`;
+  - `linkAgree_of_devExtCore`: `LinkAgree` IS a consequence of `DevExtCore` (the new modules are walked
+    last by `linkAll` and mark new modules only; `Lemmas/DevExtLink.lean`), and
+    `frame_across_modules_uses_linked` = `frame_across_modules_uses` with that hypothesis discharged;
+  - `fuelStableTop_all`: for EVERY registry the conversions `processAll` starts itself (module and
+    submodule statements, deviate statements: `TopCall`) are the same at every fuel from `entryFuel` on —
+    the grouping search is never cut short at the fuels that occur (`Lemmas/DevExtFg.lean`: fuel
+    independence of `findGrouping` from a bound without the length of the name; `DevExtFuel.lean`: that
+    bound against the slack of `entryFuel`, induction along the reached calls);
+  - `frame_across_modules_of_convTop`: the frame from agreement of the top-level conversions
+    (`ConvAgreeTop`; all the lemma files now ask for no more);
+  - `frame_across_modules_with_uses` (+ `_flat`): **base with any `uses` and any augments, nothing about
+    fuel or linking assumed**: `DevExtCore`, `PlugAgree` and `ModImports` (imports of nested statements
+    with the keyword `module` / `submodule` resolve alike; vacuous — `FlatModKw` — for every tree the AST
+    builder accepts).  Restriction (a) "no `uses` in the base" is lifted in full.
   Still restrictions of the proofs, not of the claim: the new modules sort after the base modules
   (table keys and full names), no submodules.  Where the hypotheses do not hold the runner's
   with/without comparison checks the statement case by case.
@@ -404,7 +420,7 @@ theorem frame_across_modules (B X : Registry) (ds : List Mod) (dk : KeyMap) (opt
     (hext : DevExt B X ds dk) (hno : NoAugments B) (hplug : PlugAgree plug B X) :
     FrameAcrossModules X B opts plug (newTargets B X opts plug) := by
   intro hX hB t q dd ho hq
-  exact frame_core hext.toDevExtCore hno (convAgree_noUses hext.toDevExtCore hext.noUsesB hplug opts) hX hB t q dd ho hq
+  exact frame_core hext.toDevExtCore hno (convAgree_noUses hext.toDevExtCore hext.noUsesB hplug opts).top hX hB t q dd ho hq
 
 open Goyang.Lemmas.DevExt in
 /-- The same from the deviation stage on, without the restriction on augments: if the two runs reach
@@ -415,7 +431,7 @@ theorem frame_across_modules_of_preDev (B X : Registry) (ds : List Mod) (dk : Ke
     (hext : DevExt B X ds dk) (hplug : PlugAgree plug B X) (hpre : PreDevAgree B X ds opts plug) :
     FrameAcrossModules X B opts plug (newTargets B X opts plug) := by
   intro hX hB t q dd ho hq
-  exact frame_core_of_preDev hext.toDevExtCore (convAgree_noUses hext.toDevExtCore hext.noUsesB hplug opts) hpre hX hB t q dd ho hq
+  exact frame_core_of_preDev hext.toDevExtCore (convAgree_noUses hext.toDevExtCore hext.noUsesB hplug opts).top hpre hX hB t q dd ho hq
 
 open Goyang.Lemmas.DevExt in
 /-- **The same without the restriction on augments**: the base registry `B` may have any top-level
@@ -432,14 +448,14 @@ theorem frame_across_modules_augments (B X : Registry) (ds : List Mod) (dk : Key
     (hext : DevExt B X ds dk) (hplug : PlugAgree plug B X) :
     FrameAcrossModules X B opts plug (newTargets B X opts plug) :=
   frame_across_modules_of_preDev B X ds dk opts plug hext hplug
-    (preDev_ext_aug hext.toDevExtCore (convAgree_noUses hext.toDevExtCore hext.noUsesB hplug opts))
+    (preDev_ext_aug hext.toDevExtCore (convAgree_noUses hext.toDevExtCore hext.noUsesB hplug opts).top)
 
 open Goyang.Lemmas.DevExt in
 /-- `PreDevAgree` holds under `DevExt` alone: the hypothesis of `frame_across_modules_of_preDev` is
 always satisfied for deviation-only modules that sort last. -/
 theorem preDevAgree_of_devExt (B X : Registry) (ds : List Mod) (dk : KeyMap) (opts : Opts) (plug : Plug)
     (hext : DevExt B X ds dk) (hplug : PlugAgree plug B X) : PreDevAgree B X ds opts plug :=
-  preDev_ext_aug hext.toDevExtCore (convAgree_noUses hext.toDevExtCore hext.noUsesB hplug opts)
+  preDev_ext_aug hext.toDevExtCore (convAgree_noUses hext.toDevExtCore hext.noUsesB hplug opts).top
 
 open Goyang.Lemmas.DevExt in
 /-- **The frame from the conversions on**, for a base with any `uses` and any augments: if the
@@ -451,7 +467,7 @@ reduces it, for a base with `uses`, to a fact about `B` alone. -/
 theorem frame_across_modules_of_conv (B X : Registry) (ds : List Mod) (dk : KeyMap) (opts : Opts) (plug : Plug)
     (hext : DevExtCore B X ds dk) (hconv : ConvAgree B X opts plug) :
     FrameAcrossModules X B opts plug (newTargets B X opts plug) :=
-  fun hX hB t q dd ho hq => frame_core_of_preDev hext hconv (preDev_ext_aug hext hconv) hX hB t q dd ho hq
+  fun hX hB t q dd ho hq => frame_core_of_preDev hext hconv.top (preDev_ext_aug hext hconv.top) hX hB t q dd ho hq
 
 open Goyang.Lemmas.DevExt in
 /-- **`uses` (and augments) in the base registry**, up to one fact about `B` alone.  Hypotheses besides
@@ -476,6 +492,76 @@ theorem frame_across_modules_uses (B X : Registry) (ds : List Mod) (dk : KeyMap)
     (hst : FuelStable B (entryFuel X) opts plug) :
     FrameAcrossModules X B opts plug (newTargets B X opts plug) :=
   frame_across_modules_of_conv B X ds dk opts plug hext (convAgree_of_stable hext hplug opts hdeep hlink hst)
+
+open Goyang.Lemmas.DevExt in
+/-- **`LinkAgree` is a consequence of `DevExtCore`**: a module of the base is linked (`linkAll`) in the run
+with the deviation-only modules iff it is in the run without them.  `linkAll X` walks the modules of `B`
+first (the new ones sort last); those walks stay in `B` and are the walks of `linkAll B`, at either
+fuel (`Lemmas/DevExtLink.lean`: `includeWalk_ext`, `includeWalk_fuels`); after them every module the table
+of `B` points to is marked, so the walks from the new modules mark new modules only (`includeWalk_new`):
+`(linkAll X).1 = N ++ (linkAll B).1` with `N` sequence numbers of new modules (`linkAll_ext`). -/
+theorem linkAgree_of_devExtCore (B X : Registry) (ds : List Mod) (dk : KeyMap) (hext : DevExtCore B X ds dk) :
+    LinkAgree B X :=
+  Goyang.Lemmas.DevExt.linkAgree_of_devExtCore hext
+
+open Goyang.Lemmas.DevExt in
+/-- `frame_across_modules_uses` with the hypothesis `LinkAgree` discharged (`linkAgree_of_devExtCore`). -/
+theorem frame_across_modules_uses_linked (B X : Registry) (ds : List Mod) (dk : KeyMap) (opts : Opts) (plug : Plug)
+    (hext : DevExtCore B X ds dk) (hplug : PlugAgree plug B X) (hdeep : DeepImports B X)
+    (hst : FuelStable B (entryFuel X) opts plug) :
+    FrameAcrossModules X B opts plug (newTargets B X opts plug) :=
+  frame_across_modules_uses B X ds dk opts plug hext hplug hdeep (linkAgree_of_devExtCore B X ds dk hext) hst
+
+open Goyang.Lemmas.DevExt in
+/-- **Fuel stability of the conversions `processAll` starts, for EVERY registry**: the conversion of a
+loaded (sub)module statement, and of a deviate statement of a deviation (`TopCall`), is the same at every
+fuel `fX ≥ entryFuel B` as at `entryFuel B` — whatever `uses`, groupings, submodules and names `B` has.
+How (`Lemmas/DevExtFg.lean`, `DevExtFuel.lean`): the grouping search is independent of its fuel from
+`scope.length + W + 3 + (loaded modules + 1) * (W + 4)` on, `W` the widest statement — the name does not
+enter the bound, because the model's import hop fires only when what follows the prefix has no further
+colon (`findGrouping_fuelC`, potential "has a colon" + unseen modules); that bound is at most
+`2 * (entryFuel - entryNeed) + 18` (`fgBound_le_slack`: arithmetic over statement counts, with
+`widest + highest ≤ total + 1`), which `2 * fuel + 16` reaches at every call reached from a top-level one
+(C06's `Uses.reached_good`: the remaining fuel stays `need + slack`); induction along the reached calls
+(`toEntry_shift`).  `FuelStable` — the same for EVERY call whose scope is any list of statements of the
+module — is strictly more than the frame theorems need and is not true in general (a scope list longer
+than the fuel of the grouping search makes a search succeed at the larger fuel only); the frame theorems
+below use `FuelStableTop` / `ConvAgreeTop`. -/
+theorem fuelStableTop_all (B : Registry) (fX : Nat) (hf : entryFuel B ≤ fX) (opts : Opts) (plug : Plug) :
+    FuelStableTop B fX opts plug :=
+  fuelStableTop B fX hf opts plug
+
+open Goyang.Lemmas.DevExt in
+/-- The frame from the conversions on, from agreement of the conversions `processAll` starts itself
+(`ConvAgreeTop`; `frame_across_modules_of_conv` asks for agreement at every call). -/
+theorem frame_across_modules_of_convTop (B X : Registry) (ds : List Mod) (dk : KeyMap) (opts : Opts) (plug : Plug)
+    (hext : DevExtCore B X ds dk) (hconv : ConvAgreeTop B X opts plug) :
+    FrameAcrossModules X B opts plug (newTargets B X opts plug) :=
+  fun hX hB t q dd ho hq => frame_core_of_preDev hext hconv (preDev_ext_aug hext hconv) hX hB t q dd ho hq
+
+open Goyang.Lemmas.DevExt in
+/-- **The frame across module sets for a base WITH `uses` (and augments)** — no hypothesis about fuel or
+linking left.  Hypotheses: `DevExtCore` (the deviation-only modules are loaded last, under new sequence
+numbers and keys, sort last, nobody in `B` imports them, no submodules), `PlugAgree`, and `ModImports`:
+the import statements of every statement of `B` that carries the keyword `module` / `submodule` resolve
+alike in both registries (`DevExtCore.imports` says this of the module statements themselves;
+`frame_across_modules_with_uses_flat`: nothing more to ask when no such keyword occurs further down).
+Proof: same fuel, two registries — `toEntry_sameFuel` with `linkAgree_of_devExtCore`; same registry, two
+fuels — `fuelStableTop_all`; together `ConvAgreeTop` (`convAgreeTop_of_devExtCore`), then
+`frame_across_modules_of_convTop`. -/
+theorem frame_across_modules_with_uses (B X : Registry) (ds : List Mod) (dk : KeyMap) (opts : Opts) (plug : Plug)
+    (hext : DevExtCore B X ds dk) (hplug : PlugAgree plug B X) (hmi : ModImports B X) :
+    FrameAcrossModules X B opts plug (newTargets B X opts plug) :=
+  frame_across_modules_of_convTop B X ds dk opts plug hext (convAgreeTop_of_devExtCore hext hplug opts hmi)
+
+open Goyang.Lemmas.DevExt in
+/-- The same for a base in which no statement below a (sub)module statement has the keyword `module` or
+`submodule` (`FlatModKw`; decidable through `flatModKw_of_noModKw`; true of every tree the AST builder
+accepts): `DevExtCore` and `PlugAgree` suffice. -/
+theorem frame_across_modules_with_uses_flat (B X : Registry) (ds : List Mod) (dk : KeyMap) (opts : Opts) (plug : Plug)
+    (hext : DevExtCore B X ds dk) (hplug : PlugAgree plug B X) (hflat : FlatModKw B) :
+    FrameAcrossModules X B opts plug (newTargets B X opts plug) :=
+  frame_across_modules_with_uses B X ds dk opts plug hext hplug (modImports_of_flat hext hflat)
 
 /-! #### non-vacuity -/
 section FrameExample
@@ -519,7 +605,7 @@ example : DevExt regB regX [⟨2, exZ⟩] [("z-dev@2024-01-01", 2), ("z-dev", 2)
   suffices hs : DevExt regB regX [⟨2, exZ⟩] [("z-dev@2024-01-01", 2), ("z-dev", 2)] ∧ NoAugments regB ∧
       PlugAgree exPlug regB regX from
     ⟨hs.1, hs.2.1, hs.2.2, by decide +kernel, by decide +kernel, by decide +kernel,
-      preDev_ext hs.1.toDevExtCore hs.2.1 (convAgree_noUses hs.1.toDevExtCore hs.1.noUsesB hs.2.2 {})⟩
+      preDev_ext hs.1.toDevExtCore hs.2.1 (convAgree_noUses hs.1.toDevExtCore hs.1.noUsesB hs.2.2 {}).top⟩
   refine ⟨⟨⟨rfl, by decide +kernel, rfl, rfl, by decide +kernel, by decide +kernel, by decide +kernel, by decide +kernel,
     by decide +kernel, ?_, ?_, by decide +kernel⟩, by decide +kernel⟩, ?_, fun _ _ _ _ => rfl⟩
   · intro m hm i hi
@@ -675,6 +761,118 @@ example : DevExtCore regB regX [⟨2, exZ⟩] [("z-dev@2024-01-01", 2), ("z-dev"
     rw [hB] at hm
     simp only [List.mem_cons, List.not_mem_nil, or_false] at hm
     rcases hm with rfl | rfl <;> decide +kernel
+
+/-- `module a { namespace urn:a; prefix a; import b { prefix b; } grouping g { leaf x { type string; } }
+container c { uses g; } }` -/
+private def exAu : Stmt := fst_ "a.yang" 1 "module" "a" [fst_ "a.yang" 2 "namespace" "urn:a", fst_ "a.yang" 3 "prefix" "a",
+  fst_ "a.yang" 4 "import" "b" [fst_ "a.yang" 4 "prefix" "b"],
+  fst_ "a.yang" 5 "grouping" "g" [fst_ "a.yang" 6 "leaf" "x" [fst_ "a.yang" 6 "type" "string"]],
+  fst_ "a.yang" 7 "container" "c" [fst_ "a.yang" 8 "uses" "g"]]
+private def regBu : Registry := (Registry.loadAll [exAu, exB]).1
+private def regXu : Registry := (Registry.loadAll [exAu, exB, exZ]).1
+
+/-- Non-vacuity of `frame_across_modules_with_uses` / `_flat`, `linkAgree_of_devExtCore`, `fuelStableTop_all`
+and `frame_across_modules_of_convTop`: a base WITH a `uses` (module a: `container c { uses g; }`, b, and the
+deviation-only module z-dev loaded last): `DevExtCore`, `PlugAgree`, `FlatModKw` (hence `ModImports`) hold,
+the base is outside `DevExt` (`noUses` fails), the fuels of the two runs differ (`entryFuel` 353 against
+593), both runs are clean and the run without z-dev has the leaf `/a/c/x` — copied from the grouping — that
+the conclusion speaks about (all evaluated by the kernel); `LinkAgree`, `FuelStableTop` and `ConvAgreeTop`
+then hold by the theorems. -/
+example : DevExtCore regBu regXu [⟨2, exZ⟩] [("z-dev@2024-01-01", 2), ("z-dev", 2)] ∧ PlugAgree exPlug regBu regXu ∧
+    FlatModKw regBu ∧ ModImports regBu regXu ∧ ¬ (∀ m ∈ regBu.mods, noUses m.stmt = true) ∧
+    entryFuel regBu < entryFuel regXu ∧
+    (processAll regXu {} exPlug).errors = [] ∧ (processAll regBu {} exPlug).errors = [] ∧
+    (obsE (processAll regBu {} exPlug).forest 0 [.child "c", .child "x"]).isSome = true ∧
+    LinkAgree regBu regXu ∧ FuelStableTop regBu (entryFuel regXu) {} exPlug ∧ ConvAgreeTop regBu regXu {} exPlug := by
+  have hB : regBu.mods = [⟨0, exAu⟩, ⟨1, exB⟩] := rfl
+  have hplug : PlugAgree exPlug regBu regXu := fun _ _ _ _ => rfl
+  have hcore : DevExtCore regBu regXu [⟨2, exZ⟩] [("z-dev@2024-01-01", 2), ("z-dev", 2)] := by
+    refine ⟨rfl, by decide +kernel, rfl, rfl, by decide +kernel, by decide +kernel, by decide +kernel, by decide +kernel,
+      by decide +kernel, ?_, ?_, by decide +kernel⟩
+    · intro m hm i hi
+      rw [hB] at hm
+      simp only [List.mem_cons, List.not_mem_nil, or_false] at hm
+      rcases hm with rfl | rfl
+      · have : Mod.imports ⟨0, exAu⟩ = [fst_ "a.yang" 4 "import" "b" [fst_ "a.yang" 4 "prefix" "b"]] := rfl
+        rw [this] at hi
+        simp only [List.mem_cons, List.not_mem_nil, or_false] at hi
+        subst hi
+        rfl
+      · have : Mod.imports ⟨1, exB⟩ = [] := rfl
+        rw [this] at hi
+        cases hi
+    · intro m hm
+      rw [hB] at hm
+      simp only [List.mem_cons, List.not_mem_nil, or_false] at hm
+      rcases hm with rfl | rfl <;> rfl
+  have hflat : FlatModKw regBu := by
+    apply flatModKw_of_noModKw
+    intro m hm
+    rw [hB] at hm
+    simp only [List.mem_cons, List.not_mem_nil, or_false] at hm
+    rcases hm with rfl | rfl <;> rfl
+  have hmi : ModImports regBu regXu := modImports_of_flat hcore hflat
+  refine ⟨hcore, hplug, hflat, hmi, ?_, by decide +kernel, by decide +kernel, by decide +kernel, by decide +kernel,
+    Goyang.Lemmas.DevExt.linkAgree_of_devExtCore hcore, fuelStableTop _ _ (entryFuel_le hcore) _ _,
+    convAgreeTop_of_devExtCore hcore hplug {} hmi⟩
+  intro hno
+  have h1 := hno ⟨0, exAu⟩ (by rw [hB]; exact List.mem_cons_self ..)
+  have h2 : noUses exAu = false := rfl
+  change noUses exAu = true at h1
+  rw [h2] at h1
+  cases h1
+
+/-- **`FuelStable` (the hypothesis of `frame_across_modules_uses`) asks too much**: it fails for the base
+a, b above, whose `uses g` resolves.  The call: the `uses` statement of module a with 800 copies of the
+container statement and the module statement as scope (all statements of a, so `Fuel.Inv` holds — no run
+of `processAll` makes this call).  At `entryFuel regBu = 353` the grouping search gets `2 * 352 + 16 = 720`
+units, fewer than the scope is long: "unknown-group"; at `entryFuel regXu = 593` it gets 1200 and finds
+`g`.  The frame theorems therefore work with `FuelStableTop` (`fuelStableTop_all`: true of every
+registry). -/
+theorem fuelStable_fails : ¬ FuelStable regBu (entryFuel regXu) {} exPlug := by
+  intro hst
+  have hc : fst_ "a.yang" 7 "container" "c" [fst_ "a.yang" 8 "uses" "g"] ∈ exAu.subs :=
+    List.mem_cons_of_mem _ (List.mem_cons_of_mem _ (List.mem_cons_of_mem _ (List.mem_cons_of_mem _ (List.mem_cons_self ..))))
+  have hu : fst_ "a.yang" 8 "uses" "g" ∈ (fst_ "a.yang" 7 "container" "c" [fst_ "a.yang" 8 "uses" "g"]).subs :=
+    List.mem_cons_self ..
+  have hsub : Goyang.Lemmas.Fuel.Sub (fst_ "a.yang" 7 "container" "c" [fst_ "a.yang" 8 "uses" "g"]) exAu :=
+    .step (t := exAu) hc (.refl _)
+  have inv : Goyang.Lemmas.Fuel.Inv (Goyang.Lemmas.Tree.envOf regBu {} exPlug) ⟨0, exAu⟩
+      (List.replicate 800 (fst_ "a.yang" 7 "container" "c" [fst_ "a.yang" 8 "uses" "g"]) ++ [exAu])
+      (fst_ "a.yang" 8 "uses" "g") := by
+    refine ⟨?_, .step (t := exAu) hc (.step hu (.refl _)), ?_⟩
+    · show (⟨0, exAu⟩ : Mod) ∈ [⟨0, exAu⟩, ⟨1, exB⟩]
+      exact List.mem_cons_self ..
+    · intro s hs
+      rcases List.mem_append.mp hs with hs | hs
+      · rw [List.eq_of_mem_replicate hs]; exact hsub
+      · rw [List.mem_singleton] at hs; subst hs; exact .refl _
+  have h := congrArg (fun r => r.1.d.errors.isEmpty) (hst ⟨0, exAu⟩ _ _ [] {} inv)
+  revert h
+  decide +kernel
+
+/-- … and so does `ConvAgree` (the hypothesis of `frame_across_modules_of_conv`) for the pair above, on the
+same call: the run with z-dev (fuel 593) finds the grouping, the run without it (fuel 353) does not.
+`ConvAgreeTop`, which holds (example above), is what `frame_across_modules_of_convTop` asks for. -/
+theorem convAgree_fails : ¬ ConvAgree regBu regXu {} exPlug := by
+  intro hcv
+  have hc : fst_ "a.yang" 7 "container" "c" [fst_ "a.yang" 8 "uses" "g"] ∈ exAu.subs :=
+    List.mem_cons_of_mem _ (List.mem_cons_of_mem _ (List.mem_cons_of_mem _ (List.mem_cons_of_mem _ (List.mem_cons_self ..))))
+  have hu : fst_ "a.yang" 8 "uses" "g" ∈ (fst_ "a.yang" 7 "container" "c" [fst_ "a.yang" 8 "uses" "g"]).subs :=
+    List.mem_cons_self ..
+  have inv : Goyang.Lemmas.Fuel.Inv (Goyang.Lemmas.Tree.envOf regBu {} exPlug) ⟨0, exAu⟩
+      (List.replicate 800 (fst_ "a.yang" 7 "container" "c" [fst_ "a.yang" 8 "uses" "g"]) ++ [exAu])
+      (fst_ "a.yang" 8 "uses" "g") := by
+    refine ⟨?_, .step (t := exAu) hc (.step hu (.refl _)), ?_⟩
+    · show (⟨0, exAu⟩ : Mod) ∈ [⟨0, exAu⟩, ⟨1, exB⟩]
+      exact List.mem_cons_self ..
+    · intro s hs
+      rcases List.mem_append.mp hs with hs | hs
+      · rw [List.eq_of_mem_replicate hs]; exact .step (t := exAu) hc (.refl _)
+      · rw [List.mem_singleton] at hs; subst hs; exact .refl _
+  have h := congrArg (fun r => r.1.d.errors.isEmpty) (hcv ⟨0, exAu⟩ _ _ [] {} inv)
+  revert h
+  decide +kernel
 
 end FrameExample
 
